@@ -57,10 +57,14 @@ package requestcontext
 
 // the body is read (once) whenever the request carries one, whatever its declared length
 //@ func (*RequestContext).Body
-//@   props C13
+//@   props C13 C15
 //@   ensures old(r.savedBody) != nil && old(r.req.Body) != nil && old(r.req.Body) != http.NoBody ==> ret0 == old(r.savedBody) && bread.n == old(bread.n)
 //@   ensures old(r.req.Body) == nil || old(r.req.Body) == http.NoBody ==> ret0 == iface("") && bread.n == old(bread.n)
 //@   ensures old(r.savedBody) == nil && old(r.req.Body) != nil && old(r.req.Body) != http.NoBody ==> bread.n == old(bread.n) + 1 && bread.arg1[old(bread.n)] == old(r.req.Body)
+// C15: "leaving method and body untouched": what is put back as the request body after draining it
+// is exactly the content of the buffer it was drained into (ghost logs bbytes = Buffer.Bytes, bnewr =
+// bytes.NewReader)
+//@   assert at call NewReader#1@e345714d.1: bbytes.n == old(bbytes.n) + 1 && callarg0 == bbytes.ret0[old(bbytes.n)] && bread.n == old(bread.n) + 1 && bbytes.arg0[old(bbytes.n)] == bread.arg0[old(bread.n)]
 
 // C13: the HTTP services read cookies through net/http's parser (ghost log rcook = Request.Cookie)
 //@ func (*RequestContext).Cookie
